@@ -10,7 +10,7 @@ CLAIMS = {
    note="Trusts go/ssa's CFG and go/types; assumes POSIX-like semantics of open/write listed in the evidence assumptions. Does not cover concurrent trim, GOCACHEPROG back ends, fsync/power loss.",
    technique="custom SSA path/guard analysis (must-pass-through-edge, value-origin slicing, who-may-call) over go/packages+go/ssa"),
  "C09": dict(
-   text="Structural necessary conditions for atomic pattern bindings, decided on all paths of the matcher's SSA: every backtracking point is bracketed by push/pop (and merge on success), the parser's bit index reaches the returned Binding for both spellings, set/pop/merge keep State and the frame masks consistent (merge hands its mask to the enclosing frame), Parse refuses more names than the mask has bits, names are bound only on success. Not a proof that recalled subtrees are structurally equal on all trees. Also decided: the pattern returned by Parse owns its index-to-name table (fresh storage, never the parser's own table, which the next Parse on the same parser rewrites).",
+   text="Structural necessary conditions for atomic pattern bindings, decided on all paths of the matcher's SSA: every backtracking point is bracketed by push/pop (and merge on success), the parser's bit index reaches the returned Binding for both spellings, set/pop/merge keep State and the frame masks consistent (merge hands its mask to the enclosing frame), Parse refuses more names than the mask has bits, names are bound only on success. Not a proof that recalled subtrees are structurally equal on all trees. Also decided: the pattern returned by Parse owns its index-to-name table (fresh storage, never the parser's own table, which the next Parse on the same parser rewrites). Two node lists are compared element by element only after their lengths were found equal.",
    ref="§4 C09",
    note="Trusts go/ssa; a failure that is passed unchanged to the caller is assumed to be handled by the caller's frame (which is itself checked). One exemption (Symbol.Match's alias loop) with its reason is in the checker.",
    technique="custom SSA path analysis (dominating push, pop on every failing path) + forward/backward value-flow"),
@@ -30,7 +30,7 @@ CLAIMS = {
    note="Assumes monotone transfer functions; trusts constant evaluation by go/types. The generic MapLattice laws for arbitrary element lattices are decided only structurally (keys of both operands, element merge on common keys, identity shortcut).",
    technique="constant-table evaluation from the AST with exhaustive law enumeration + SSA path rules (store ⇒ enqueue on all paths, guard edges)"),
  "C12": dict(
-   text="Decides that the sort comparator refines the de-duplication key before the build name (key read from descriptor(), chain read from the comparator's AST), that mergeRuns covers every merge strategy and vetoes an 'all' problem only for runs that checked its file and lack it, over the whole runs slice, and that -f binary normalises exactly the fields the merge keys on. Structural necessary conditions; commutativity/idempotence over multisets of runs follow only informally. Also decided: the reader shared by the per-run gob decoders of -merge input implements io.ByteReader (otherwise each decoder buffers ahead privately and later runs of a stream are lost).",
+   text="Decides that the sort comparator refines the de-duplication key before the build name (key read from descriptor(), chain read from the comparator's AST), that mergeRuns covers every merge strategy and vetoes an 'all' problem only for runs that checked its file and lack it, over the whole runs slice, and that -f binary normalises exactly the fields the merge keys on. Structural necessary conditions; commutativity/idempotence over multisets of runs follow only informally. Also decided: the reader shared by the per-run gob decoders of -merge input implements io.ByteReader (otherwise each decoder buffers ahead privately and later runs of a stream are lost). (*linter).run leaves no state in the linter, so the runs of a -matrix are independent.",
    ref="§4 C12",
    note="Comparator idioms recognised: if a.f != b.f { return a.f < b.f } chains and cmp.Compare chains; any other idiom makes the rule report 'undecided' (fails) instead of passing.",
    technique="AST symbolic extraction of comparator/equality field chains + SSA guard-edge rules"),
@@ -40,7 +40,7 @@ CLAIMS = {
    note="Call graph is CHA (quick) / VTA (thorough) restricted to packages linked into cmd/staticcheck; std-lib bodies are opaque; assumes the environment is fixed between compared runs as the property states; exemptions are one line per field/call site with a reason.",
    technique="interprocedural field effect sets over the call graph + value-origin slices of hash writes + who-may-call tables"),
  "C06": dict(
-   text="Structural necessary conditions of deterministic, race-free linting, decided over the whole module: worker-reachable writes to package-level variables are lock-held; the dependency counter/statistics are atomic-only; handlers write only their own action and never the graph shape; in genericHandle all writes precede the releasing decrement and enqueueing happens only on the decrement reaching zero; every map-ordered slice in the output pipeline is sorted before use or listed with a reason; the print comparator is total over printed and de-duplicated fields. Not a race detector: it decides ownership/ordering shape, not all interleavings. Also decided: filterIgnored tests every directive against every problem, so its outcome does not depend on the map-iteration order in which directives arrive.",
+   text="Structural necessary conditions of deterministic, race-free linting, decided over the whole module: worker-reachable writes to package-level variables are lock-held; the dependency counter/statistics are atomic-only; handlers write only their own action and never the graph shape; in genericHandle all writes precede the releasing decrement and enqueueing happens only on the decrement reaching zero; every map-ordered slice in the output pipeline is sorted before use or listed with a reason; the print comparator is total over printed and de-duplicated fields. Not a race detector: it decides ownership/ordering shape, not all interleavings. Also decided: filterIgnored tests every directive against every problem, so its outcome does not depend on the map-iteration order in which directives arrive. A handler releases its worker slot before it sends ready dependents to the unbuffered queue.",
    ref="§4 C06",
    note="Call graph VTA∘CHA with callback over-approximation, restricted to code linked into cmd/staticcheck; Go memory model for atomics/channels assumed; exemptions one per symbol in tables/c06_order.tsv. Observation (not decided): -f binary bytes differ between a cold and a warm run because encoding/gob assigns type ids process-globally; decoded content is identical.",
    technique="lock-held dominance + happens-before path queries on SSA, map-order taint with sort sanitisers, comparator-chain extraction"),
@@ -50,7 +50,7 @@ CLAIMS = {
    note="Lock identity is by mutex field name within a function (path-insensitive about which object); Go memory model assumed; the task-graph wait algorithm itself is not decided.",
    technique="guarded-by inference from declarations + lock-held dominance + guard-edge/must-pass path rules on SSA"),
  "C10": dict(
-   text="Decides the guard structure of ignore directives on every path: match requires file (and line) equality and a case-folded glob match; reason-less directives never become ignores (linter and U1000) and are errors in the compile category; 'ignored' is set only on the true edge of match; the unmatched-directive problem only for unmatched line ignores naming an enabled check, never U1000; directive and problem positions come from the same position function and file set; U1000 uses the same name predicate as the linter. Structural necessary conditions; comment attachment (ast.CommentMap) and glob semantics are trusted. Also decided: directives are recognised by looking at every comment of a comment group (never a fixed position of the group), and filterIgnored tests every directive against every problem.",
+   text="Decides the guard structure of ignore directives on every path: match requires file (and line) equality and a case-folded glob match; reason-less directives never become ignores (linter and U1000) and are errors in the compile category; 'ignored' is set only on the true edge of match; the unmatched-directive problem only for unmatched line ignores naming an enabled check, never U1000; directive and problem positions come from the same position function and file set; U1000 uses the same name predicate as the linter. Structural necessary conditions; comment attachment (ast.CommentMap) and glob semantics are trusted. Also decided: directives are recognised by looking at every comment of a comment group (never a fixed position of the group), and filterIgnored tests every directive against every problem. Whether a useless directive is reported is decided with glob matching against the enabled checks, and U1000 neither decides nor reports (independent of its position in the list).",
    ref="§4 C10",
    note="Trusts path/filepath.Match and ast.NewCommentMap; 'same predicate' is decided as 'filepath.Match on lower-cased operands' at both sites.",
    technique="guard-edge (must-pass-through-edge) analysis and value-origin checks on SSA"),
@@ -65,12 +65,12 @@ CLAIMS = {
    note="Assumes reachability over an edge set is insertion-order independent; effect sets are closed over static callees within package unused.",
    technique="field effect sets + map-loop body analysis + guard-edge rules on SSA"),
  "C03": dict(
-   text="Decides, for all programs at once, that no 'unhandled kind' panic is reachable for the closed kinds the code switches on: 42 must-panic type switches are decided against the full universe of implementors (IR instructions constructed by go/ir, go/ast statement/expression/declaration kinds, go/types types), against the inspector filter that feeds them, or against a frozen reviewed case set; builtin-name switches against go/types' universe; unchecked assertions in inspector callbacks against their filter; the type checker's Go version is never pinned. Adding an IR instruction kind, deleting a case or widening a filter is reported with the switch and the kind. Does not decide arbitrary panics or analyzer errors. Also decided: lookups in go/ir's object-keyed tables use origin objects when the key comes out of a method set or selection; switches over operator tokens with a panicking default are complete for the operator universe of their source (an IR comparison handled only for == and != must be guarded by (*ir.Const).IsNil) — this found the crash on `x < zero` for a type parameter's zero value.",
+   text="Decides, for all programs at once, that no 'unhandled kind' panic is reachable for the closed kinds the code switches on: 42 must-panic type switches are decided against the full universe of implementors (IR instructions constructed by go/ir, go/ast statement/expression/declaration kinds, go/types types), against the inspector filter that feeds them, or against a frozen reviewed case set; builtin-name switches against go/types' universe; unchecked assertions in inspector callbacks against their filter; the type checker's Go version is never pinned. Adding an IR instruction kind, deleting a case or widening a filter is reported with the switch and the kind. Does not decide arbitrary panics or analyzer errors. Also decided: lookups in go/ir's object-keyed tables use origin objects when the key comes out of a method set or selection; switches over operator tokens with a panicking default are complete for the operator universe of their source (an IR comparison handled only for == and != must be guarded by (*ir.Const).IsNil) — this found the crash on `x < zero` for a type parameter's zero value. A handler releases its worker slot before it blocks on the unbuffered package queue (termination with few workers).",
    ref="§4 C03",
    note="Case-set sites (universe from grammar/type-checker invariants, one reviewed line each in tables/c03_switches.tsv) only detect the loss of a case; a new must-panic switch must be classified before the check passes (fails loudly rather than silently).",
    technique="exhaustiveness analysis of type/string switches against universes computed from go/types, inspector filters and reviewed tables"),
  "C08": dict(
-   text="Decides that the three pre-filters are over-approximations by construction: entry-node table vs. node kinds (evaluated from the table literal), classification of every matcher kind, negative/optional polarity in collectSymbols, CouldMatchAny's coverage of collectSymbols' result kinds, the conditions under which the call index replaces the traversal, and — over all 90 pattern constants of the module, read with a small reader of the pattern language — that every symbol the package rejection requires is resolvable by the index. Necessary conditions; equivalence of the two search strategies on all programs (third-package aliases, wrapper nodes) is not decided. Also decided: the type index's package table, from which every symbol lookup starts, covers the package of every used object (methods and fields of packages that are not imported directly), not only the imports.",
+   text="Decides that the three pre-filters are over-approximations by construction: entry-node table vs. node kinds (evaluated from the table literal), classification of every matcher kind, negative/optional polarity in collectSymbols, CouldMatchAny's coverage of collectSymbols' result kinds, the conditions under which the call index replaces the traversal, and — over all 90 pattern constants of the module, read with a small reader of the pattern language — that every symbol the package rejection requires is resolvable by the index. Necessary conditions; equivalence of the two search strategies on all programs (third-package aliases, wrapper nodes) is not decided. Also decided: the type index's package table, from which every symbol lookup starts, covers the package of every used object (methods and fields of packages that are not imported directly), not only the imports. Index.Calls' ascent from the callee's name to the call is cumulative (selector step, then instantiation step), so qualified and explicitly instantiated callees are enumerated.",
    ref="§4 C08",
    note="The pattern reader re-implements only the requirement algebra (And/Or/Any) documented for SymbolsPattern; typeindex is trusted to find all direct references.",
    technique="table-literal evaluation + case-set and value-origin analysis + static evaluation of all pattern constants"),
